@@ -153,6 +153,13 @@ REG["C11"] = dict(
     outside=["byte-level equality of the produced files (needs the whole writer)", "wrappers (dedup, converted, merged row groups) declining the fast path (K2), segment packing (K4), bloom filter sizing/copy on the fast paths (K5)", "bloomFilterIsCopyable (needs the bloom header decode)"],
 )
 
+REG["C12"] = dict(
+    harnesses=[H(P, "VerifH_C12_flatSubsetAndAdd"), H(P, "VerifH_C12_addInsideRepeatedGroup"), H(P, "VerifH_C12_addBesideNestedGroup")],
+    explanation="Concrete-prefix harnesses: the real NewSchema/Convert build the conversion (column mapping, closest-sibling lookup, level tables) for source and target schemas chosen by case split, and the real conversion.Convert rewrites rows with symbolic payloads; the result is compared with a reference shredding written in the harness. (K1) flat source {a,b,c}: every non-empty subset, with or without an added optional or required leaf sorted between existing columns: common columns keep value and levels with the target's column index, the added column is null resp. zero. (K2) a leaf added inside a repeated group beside a leaf sibling mirrors the sibling's list structure for every list length 0..2 (null resp. zero per element, absent for an empty list). (K2') a leaf added inside a repeated group whose only other child is a group: open known finding (the added column gets one entry per row instead of one per element).",
+    bounds={"quick": "flat: 7 subsets x 3 additions, 1..2 rows; repeated group: lists of 0..2 elements, 1..2 rows; nested sibling: lists of 0..3 elements", "thorough": "same"},
+    outside=["value type conversions (convertToType)", "variant reconstruction", "Read[T] (reflection)", "MergeRowGroups with a schema, CopyRows decision", "deeper nesting, maps and LIST/MAP annotated groups"],
+)
+
 LEVEL_TEXT = "bounded symbolic execution of the real functions (go/ssa of the current /repo tree) with an SMT solver deciding every assertion for all inputs inside the stated bounds; counterexamples are replayed against the natively compiled code before being reported"
 
 def main():
